@@ -104,6 +104,7 @@ def synthesise(diagram, mc, order):
     for (numb, part, form, refs) in diagram['assocs']:
         rel, poir, foir = r.new_id(), r.new_id(), r.new_id()
         r.insert('R_REL', Rel_ID=rel, Numb=numb)
+        r.insert('PE_PE', Element_ID=rel, Visibility=1, type=9)      # R_REL.Rel_ID is referential (R8001)
         r.insert('R_SIMP', Rel_ID=rel)
         r.insert('R_OIR', Obj_ID=obj[part], Rel_ID=rel, OIR_ID=poir)
         r.insert('R_RTO', Obj_ID=obj[part], Rel_ID=rel, OIR_ID=poir, Oid_ID=0)
@@ -131,6 +132,7 @@ def synthesise(diagram, mc, order):
     for (numb, sup, subs) in diagram.get('subsups', []):
         rel, soir = r.new_id(), r.new_id()
         r.insert('R_REL', Rel_ID=rel, Numb=numb)
+        r.insert('PE_PE', Element_ID=rel, Visibility=1, type=9)      # R_REL.Rel_ID is referential (R8001)
         r.insert('R_SUBSUP', Rel_ID=rel)
         r.insert('R_OIR', Obj_ID=obj[sup], Rel_ID=rel, OIR_ID=soir)
         r.insert('R_RTO', Obj_ID=obj[sup], Rel_ID=rel, OIR_ID=soir, Oid_ID=0)
@@ -145,6 +147,7 @@ def synthesise(diagram, mc, order):
     for (numb, one_c, oth_c, link_c, refs_one, refs_oth, ph_one, ph_oth) in diagram.get('linked', []):
         rel, ooir, toir, loir = r.new_id(), r.new_id(), r.new_id(), r.new_id()
         r.insert('R_REL', Rel_ID=rel, Numb=numb)
+        r.insert('PE_PE', Element_ID=rel, Visibility=1, type=9)      # R_REL.Rel_ID is referential (R8001)
         r.insert('R_ASSOC', Rel_ID=rel)
         r.insert('R_OIR', Obj_ID=obj[one_c], Rel_ID=rel, OIR_ID=ooir)
         r.insert('R_RTO', Obj_ID=obj[one_c], Rel_ID=rel, OIR_ID=ooir, Oid_ID=0)
